@@ -3,8 +3,9 @@
      T  pair tree of the PEG model       (format of harness/src/bin/c03.rs)
      H  AST shape built by the bridge model from that tree   (format of harness/src/bin/c03.rs)
      V  <mask> <hex>: derivable in the grammar variant with the deviations of the mask switched on (Deviations.v);
-        mask 1 = the specification (RFC + leniencies + type1 note), 8191 = every known deviation
-     R  derivable from RFC 8610/9682 + documented leniencies?   Y | N | EFUEL
+        mask 0 = the specification, 8190 = every known deviation
+     R  derivable from RFC 8610/9682 + documented leniencies, names read as maximal tokens (the C03 language)?   Y | N | EFUEL
+     L  the same without the tokenisation convention
      F  derivable from the RFC rules alone?                      Y | N | EFUEL *)
 open Grammar_model
 let rec pos_of_int n = if n = 1 then XH else if n land 1 = 1 then XI (pos_of_int (n lsr 1)) else XO (pos_of_int (n lsr 1))
@@ -35,6 +36,7 @@ let () =
        | "H" :: rest -> print_endline (string_of_codes (cddl_shape (input_of_hex (match rest with h :: _ -> h | [] -> ""))))
        | "V" :: m :: rest -> print_endline (string_of_codes (variant_verdict (n_of_int (int_of_string m)) (input_of_hex (match rest with h :: _ -> h | [] -> ""))))
        | "R" :: rest -> print_endline (string_of_codes (spec_verdict (input_of_hex (match rest with h :: _ -> h | [] -> ""))))
+       | "L" :: rest -> print_endline (string_of_codes (lenient_verdict (input_of_hex (match rest with h :: _ -> h | [] -> ""))))
        | "F" :: rest -> print_endline (string_of_codes (rfc_verdict (input_of_hex (match rest with h :: _ -> h | [] -> ""))))
        | _ -> print_endline "?")
     done
